@@ -636,11 +636,18 @@ pub fn classify(src: &str, v: &Verdict) -> String {
     let nc = remove_comments(src, &ast);
     let e_b = nb != src && !still(&nb);
     let e_c = nc != src && !still(&nc);
+    // a redundant block inside a hole of a `"""` string: its chain's span is relative to the string,
+    // so whether it is kept depends on the trivia of whatever file node sits at that offset (F23)
+    let ml_hole_block = kind == "not-idempotent" && {
+        let dbg = format!("{ast:?}");
+        dbg.contains("String(Multi") && dbg.contains("Hole(") && dbg.contains("Block(")
+    };
+    let tag = |c: &str| if ml_hole_block { format!("{c}+block-in-multiline-hole") } else { c.to_string() };
     match (e_b, e_c) {
         // either removal alone cures it: the failure needs a blank line *and* a comment
-        (true, true) => return "blank-line+comment".into(),
-        (true, false) => return "blank-line".into(),
-        (false, true) => return "comment".into(),
+        (true, true) => return tag("blank-line+comment"),
+        (true, false) => return tag("blank-line"),
+        (false, true) => return tag("comment"),
         (false, false) => {
             let nbc = remove_blank_lines(&nc);
             if nbc != src && !still(&nbc) {
